@@ -475,6 +475,35 @@ func c18(x *mon.Ctx) {
 			nonceCases++
 			x.Note("default-opts-nonce", fmt.Sprintf("%x", n[:4]), okk, false, okk)
 		}
+		// the nonce as a caller has it: the first n bytes of a larger buffer (a received message, a pooled buffer) whose other bytes
+		// are not the caller's nonce and not zero — REPORT_DATA is bound to the n bytes followed by zeros, whatever lies behind them
+		for _, n := range []int{0, 1, 16, 32, 48, 63, 64} {
+			for _, spare := range []int{1, 31, 64, 200} {
+				buf := make([]byte, n+spare)
+				for i := range buf {
+					buf[i] = 0xA5 ^ byte(i)
+				}
+				copy(buf, sq.ReportData[:n])
+				nonce := buf[:n]
+				o := rtmr.TdxDefaultOpts(nonce)
+				want := make([]byte, 64)
+				copy(want, nonce)
+				okk := bytes.Equal(o.Validation.TdQuoteBodyOptions.ReportData, want)
+				if !okk {
+					x.Violation("default-opts-nonce", fmt.Sprintf("len%d-of-a-buffer-of-%d", n, n+spare), fmt.Sprintf("TdxDefaultOpts(buf[:%d]) with %d further (non-zero) bytes behind the nonce in the caller's buffer: REPORT_DATA is bound to %x, the nonce followed by zeros is %x", n, spare, o.Validation.TdQuoteBodyOptions.ReportData, want), "none", map[string]any{"nonce_len": n, "buffer_len": n + spare})
+				}
+				// ... and it stays bound to it when the caller's buffer moves on
+				for i := range buf {
+					buf[i] ^= 0x3c
+				}
+				if okk && !bytes.Equal(o.Validation.TdQuoteBodyOptions.ReportData, want) {
+					okk = false
+					x.Violation("default-opts-nonce", fmt.Sprintf("len%d-of-a-buffer-of-%d/buffer-rewritten", n, n+spare), "the REPORT_DATA expectation of options built earlier changed when the caller rewrote its own buffer", "none", map[string]any{"nonce_len": n, "buffer_len": n + spare})
+				}
+				nonceCases++
+				x.Note("default-opts-nonce", fmt.Sprintf("len%d-of-a-buffer-of-%d", n, n+spare), okk, false, okk)
+			}
+		}
 		for b := 0; b < 512; b += x.Pick(16, 1) {
 			n := append([]byte{}, sq.ReportData...)
 			n[b/8] ^= 1 << uint(b%8)
